@@ -5,7 +5,10 @@
 //     pkg/config/v1) is rendered by the harness's own TOML / YAML / JSON writers; the repository loader's
 //     structures must equal the expectation and each other, in both strict modes; the file loaders plus
 //     Complete() are compared with a reference model of the documented defaults.
-//  2. unknown fields injected at every nesting level: strict rejects, non-strict loads the clean result.
+//  2. unknown fields injected at every nesting level: strict rejects, non-strict loads the clean result;
+//     the same for documents split over a main file and files pulled in through `includes` (other
+//     formats): main + included files load like the single document, and an unknown field inside an
+//     included file is refused / ignored exactly like in the main file.
 //  3. both ends: client structure -> MarshalToMsg -> wire codec -> NewProxyConfigurerFromMsg must agree in
 //     every field the server acts on (independent table per proxy type); plus a live sample: real frpc
 //     started from a generated file against a real frps, observed through the dashboard API and the
@@ -13,7 +16,8 @@
 //  4. validation: configurations accepted by the real validators are judged by independent predicates
 //     (ports, enumerations, custom domains vs. subdomain host in any letter case).
 //  5. flags: cobra commands built exactly like cmd/frps and cmd/frpc/sub; a setting given by flag must
-//     produce the structure the same setting produces in a file.
+//     produce the structure the same setting produces in a file, in every order of the flags (PRNG
+//     permutations of each flag set; for the three dashboard tls flags the mode flag first and last).
 //  6. literals and templates: port ranges, bandwidth quantities, environment values, number-range pairs.
 package main
 
@@ -54,7 +58,7 @@ func main() {
 		return
 	}
 	run = h.NewRun(prop, "exploration")
-	run.Rule = "logical configurations generated from an independent table of documented settings (8 proxy types, 3 visitor types, client and server sections; unicode / quoting-hostile strings, present-but-empty vs absent lists, maps and sub-tables, boundary integers, mixed-case domains), each rendered to TOML, YAML and JSON with PRNG-chosen syntax styles; distinct = distinct logical configuration (hash of its tree), distinct (nesting level, format, unknown name) injection, distinct registration message, distinct validation input, distinct flag set, distinct literal / template"
+	run.Rule = "logical configurations generated from an independent table of documented settings (8 proxy types, 3 visitor types, client and server sections; unicode / quoting-hostile strings, present-but-empty vs absent lists, maps and sub-tables, boundary integers, mixed-case domains), each rendered to TOML, YAML and JSON with PRNG-chosen syntax styles; distinct = distinct logical configuration (hash of its tree), distinct (nesting level, format, unknown name) injection (main file and included files), distinct registration message, distinct validation input, distinct flag set, distinct literal / template"
 	run.Assumptions = []string{
 		"strings are valid UTF-8 without NUL; explicit nulls are not generated (TOML has none)",
 		"nil and empty lists / maps are the same value",
